@@ -130,7 +130,8 @@ def setup(ctx):
                     else:
                         chosen = e[np.arange(e.shape[0]), out.argmax(axis=1)]
                         mx = e.max(axis=1)
-                        tol = 1e-12 * np.maximum(1.0, np.abs(e).max(axis=1)) * sps
+                        # rounding of a slot sum is relative to the samples of THAT symbol (no absolute floor: a symbol at 1e-12 V next to one at 1e6 V still has a largest slot)
+                        tol = 1e-12 * np.abs(np.real(x)).reshape(-1, sps).sum(axis=1).reshape(-1, M).max(axis=1)
                         if not np.all(chosen >= mx - tol):
                             ok, msg = False, "SDD did not turn ON the slot of largest integrated energy"
                 ctx.check("sdd.post", ok, msg, M=M, sps=sps, out=getattr(r, "data", None))
@@ -376,6 +377,9 @@ def w_sdd(ctx, rng, i):
             Pm.SDD(x, M)
         elif mode == 2:    # arbitrary real records
             y = rng.normal(0, 1, nsym * M * sps) * 10 ** rng.uniform(-3, 2)
+            if rng.integers(2):    # a burst record: every symbol at its own level, 18 decades apart (nothing is "round-off of the record")
+                y = y * np.repeat(10 ** rng.uniform(-12, 6, nsym), M * sps)
+                ctx.bin("sdd.dynamic_range", "per-symbol levels")
             Pm.SDD(y if rng.integers(2) else T.electrical_signal(y), M)
         else:              # deliberate energy ties between slots
             lv = rng.integers(0, 3, nsym * M).astype(float)
